@@ -153,4 +153,27 @@ def validate (t : VTree) : Result :=
       (fun v => (v.info.id, validAfterUp (validAfterDown v.ret) (validateUp v.info).1))
     log := logDown ++ logUp }
 
+/-! ### the `.valid` store across calls -/
+
+mutual
+/-- ids of all elements of the tree (preorder) -/
+def VTree.ids : VTree → List Nat | .node i k => i.id :: idsL k
+def idsL : List VTree → List Nat | [] => [] | t :: ts => t.ids ++ idsL ts
+end
+
+def lookupValid (id : Nat) : List (Nat × Valid) → Option Valid
+  | [] => none
+  | (k, v) :: rest => if k = id then some v else lookupValid id rest
+
+/-- `.valid` of the element `id` after `validate()`; `prev` is what earlier calls left on the same
+    element tree (Unevaluated everywhere on a fresh tree).  Only visited elements are written. -/
+def validNow (prev : Nat → Valid) (t : VTree) (id : Nat) : Valid :=
+  match lookupValid id (validate t).valids with
+  | some v => v
+  | none => prev id
+
+/-- `all_valid` after the call: every element of the tree, visited or not -/
+def allValidNow (prev : Nat → Valid) (t : VTree) : Bool :=
+  t.ids.all (fun id => (validNow prev t id).truthy)
+
 end Flatland.C05
